@@ -48,9 +48,9 @@ def main(tier, seed):
                         '; all sequences of exactly 3 assignments over the reduced alphabet (%d items)'
                         % cov.get('A_alphabet_reduced', 0) if depth3 else ''),
         'alphabet': 'name forms {canonical, CANONICAL, inline synonyms, SYNONYM/Mixed, out-of-line synonym and its inline '
-                    'synonym (both cases), wildcard keys pri:1:w pri:2:w pri_1_w, PRI:1:W, unknown zz/metho/pri:1:x} x '
+                    'synonym (both cases), wildcard keys pri:1:w pri:2:w pri_1_w wp1 wp2 (a synonym of another head/tail shape), PRI:1:W, unknown zz/metho/pri:1:x} x '
                     'separators {=, " = ", blank} x ints {0,-7,42,010,99999999999} / doubles {1.5,-2e3,1e400} / strings '
-                    '{abc, \'a b\', "q\'q", \'\', ?x} + name=? + flag + flag=1; reduced alphabet = explicit list in opt_harness.cc (every option, name-form class, item kind; values and separators thinned)',
+                    '{abc, \'a b\', "q\'q", \'\', ?x, r\xc3\xa9s.log (UTF-8, unquoted)} + name=? + flag + flag=1; reduced alphabet = explicit list in opt_harness.cc (every option, name-form class, item kind; values and separators thinned)',
         'totality': 'all byte strings of length <= %d over {a = blank \' " ? 0 - . 0x80} x prefixes {none, n=, s=, s=\', d=} x '
                     '{ParseOptionString(flags=0), ParseOptions(argv)} + %d long-token strings (48..4096 bytes)'
                     % (blen, cov.get('B_long_token_strings', 0)),
